@@ -309,6 +309,12 @@ func (o *obCtx) boolCall(id string, pred func(call *ssa.Call) bool, badWhen bool
 // mustCheck: on every path of fn to a nil-error (or `true`) return, callee has been
 // called and its error result is nil on that path.
 func (o *obCtx) mustCheck(id string, isCallee func(call *ssa.Call) bool, desc string) {
+	o.mustCheckX(id, isCallee, desc, false)
+}
+
+// mustCheckX with optional: the call may be absent from a successful path (it is made under a
+// condition the caller verifies separately); where it is made its error must be nil on success.
+func (o *obCtx) mustCheckX(id string, isCallee func(call *ssa.Call) bool, desc string, optional bool) {
 	if o == nil {
 		return
 	}
@@ -356,6 +362,9 @@ func (o *obCtx) mustCheck(id string, isCallee func(call *ssa.Call) bool, desc st
 			continue
 		}
 		nOK++
+		if !sp.Has("check") && optional {
+			continue
+		}
 		if !sp.Has("check") {
 			o.r.Fail(o.rule, o.key(id), o.c.Pos(o.fn.Pos()), desc+": a path returns success without performing the check", sp.Trace...)
 			return
